@@ -56,6 +56,23 @@ def routes(cx: Cx, ob: Ob):
         s = cx.summary(fn, ob.id)
         conv = ("param", fn.params[0].name)
         for ev, ctx in s.walk():
+            if ev.kind == "expr" and op(ev.a) == "call" and callee_name(ev.a) in ("add_url_rule", "add_api_route") and ev.a[2]:
+                # explicit registration instead of a decorator
+                kw = dict(ev.a[3])
+                view = kw.get("view_func") or kw.get("endpoint") or (ev.a[2][-1] if len(ev.a[2]) > 1 else None)
+                tpl = ev.a[2][0]
+                parts = concat_parts(tpl) or ([tpl] if is_const(tpl) else None)
+                if parts is not None and op(view) == "closure":
+                    norm = []
+                    for p_ in parts:
+                        if is_const(p_) and isinstance(p_[1], str):
+                            norm.append(("lit", p_[1]))
+                        elif p_ == ("attr", conv, "delimiter"):
+                            norm.append(("delim", None))
+                        else:
+                            norm.append(("other", p_))
+                    out[fw] = (fn, cx.model.functions.get(view[1]), norm, ev.line, ev.a)
+                continue
             if ev.kind != "def":
                 continue
             for d in ev.b:
